@@ -45,6 +45,10 @@ fn accepted_at(ix: &Ix, o: &OpRec) -> Option<usize> {
     if is_tell(k) {
         return if matches!(o.res, Some(Res::Ok)) { o.end } else { None };
     }
+    if o.route == "join-room" && o.res.is_none() && !deadlock_panicked(ix, o) {
+        // an ask that found a free slot and whose caller then unwound: the envelope went in with the first poll
+        return Some(o.start);
+    }
     match &o.res {
         Some(Res::Rep { .. }) | Some(Res::Str(_)) | Some(Res::Join(_)) | Some(Res::RepR(_)) | Some(Res::Unit) => o.end,
         Some(Res::Err { k: ErrK::Receive, .. }) | Some(Res::Err { k: ErrK::JoinPanic, .. }) | Some(Res::Err { k: ErrK::JoinCancelled, .. }) => o.end,
